@@ -36,6 +36,7 @@ var wfFiles = []string{
 	".github/workflows/b.yml",
 	".github/workflows/sub/c.yaml",
 	".github/workflows/sub/deep/d.yml",
+	".github/workflows/z-broken.yml", // not well-formed YAML: one diagnostic, filtered like any other
 }
 
 var wfContent = map[string]string{
@@ -79,6 +80,7 @@ jobs:
     runs-on: ubuntu-latest
     steps: []
 `,
+	".github/workflows/z-broken.yml": "on: push\njobs:\n  a: [\n",
 	".github/workflows/sub/deep/d.yml": `on: push
 jobs:
   ok:
@@ -97,6 +99,9 @@ var regexPool = []string{
 	`LABEL "`, `IS NOT DEFINED`, `STEP ID`,
 	// the empty pattern matches every message
 	``,
+	// fully anchored plain texts: they match a message only if it IS that text (none is)
+	`^undefined$`, `\Alabel\z`, `^is not defined$`, `^could not parse as YAML$`,
+	`could not parse`,
 }
 
 // patterns whose inline flags / quoting must stay confined to the pattern itself
